@@ -8,7 +8,11 @@
 (*   opls      BOOLEAN            _FF_OPLS defined: bonded types are keyed *)
 (*                                by the bond type of each atom type       *)
 (*   btype     Seq([t, b])        atom type -> bond type                   *)
-(*   defs      Seq([name, toks])  #define name tok tok ...                 *)
+(*   defs      Seq([op, name, toks])  the preprocessor lines in front of   *)
+(*                                the tables: op "define" (#define name    *)
+(*                                tok ...; toks = <<>>: a tag), "ifdef" /  *)
+(*                                "ifndef" (name = the tag), "else",       *)
+(*                                "endif"                                  *)
 (*   tables    [kind -> Seq([key, par])]   the [ <kind>types ] directives  *)
 (*                                in file order, par = <<func, p1, ...>>   *)
 (*   mols      Seq([name, atypes, inter]) molecule types; inter is         *)
@@ -34,7 +38,10 @@ CONSTANTS Cases,              \* set of abstract topologies explored
           DevSpecOrder,       \* pattern list not ordered by specificity
           DevDefineFirstOnly, \* macros substituted in the first interaction of a section only
           DevPairsUntyped,    \* proposed finding: [ pairs ] are never looked up in [ pairtypes ]
-          DevTableMacrosKept  \* proposed finding: macros inside type-table entries are not substituted
+          DevTableMacrosKept, \* proposed finding: macros inside type-table entries are not substituted
+          DevDefineLazyCond,  \* a #define inside a block is recorded iff the block's condition holds when re-evaluated at the #define line
+          DevDefineBlockDropped, \* a #define inside any #ifdef / #ifndef block is ignored
+          DevDefineInactiveKept  \* reported finding (what the tree does): a #define is recorded whatever branch it sits in
 
 KindSeq == <<"bonds", "angles", "constraints", "dihedrals", "pairs">>
 KindSet == {"bonds", "angles", "constraints", "dihedrals", "pairs"}
@@ -59,6 +66,36 @@ Best(kind, tbl, ts) == LET M == Matching(kind, tbl, ts)
 \* ... all of them are terms of the interaction, in table order
 Terms(kind, tbl, ts) == LET b == SetToSortSeq(Best(kind, tbl, ts), <) IN [k \in 1..Len(b) |-> tbl[b[k]].par]
 
+(* ---- the preprocessor lines (top.defs): cpp semantics.  A block opens at #ifdef / #ifndef, may have one #else, closes *)
+(* at #endif; blocks are not nested (the reader rejects nesting).  The condition of a block is decided where the block     *)
+(* opens, against the #define lines that were processed before that line; a line is processed iff it is outside every      *)
+(* block or sits in the selected branch of its block.                                                                      *)
+MaxOf(S) == CHOOSE i \in S : \A j \in S : j <= i
+\* the line that opens the block line i sits in (0: outside every block)
+Opener(L, i) == LET S == {j \in 1..(i - 1) : L[j].op \in {"ifdef", "ifndef"} /\ \A k \in (j + 1)..(i - 1) : L[k].op # "endif"}
+                IN IF S = {} THEN 0 ELSE MaxOf(S)
+InElse(L, i) == \E k \in (Opener(L, i) + 1)..(i - 1) : L[k].op = "else"
+RECURSIVE Processed(_, _)
+Processed(L, i) == LET j == Opener(L, i) IN
+                     \/ j = 0
+                     \/ LET defd == \E k \in 1..(j - 1) : L[k].op = "define" /\ L[k].name = L[j].name /\ Processed(L, k)
+                        IN (defd = (L[j].op = "ifdef")) # InElse(L, i)
+\* the macros in force after the lines: the processed #define lines, in file order
+EffDefs(L) == LET S == SetToSortSeq({i \in 1..Len(L) : L[i].op = "define" /\ Processed(L, i)}, <)
+              IN [x \in 1..Len(S) |-> [name |-> L[S[x]].name, toks |-> L[S[x]].toks]]
+WellFormedPP(L) == /\ \A i \in 1..Len(L) : /\ L[i].op \in {"define", "ifdef", "ifndef", "else", "endif"}
+                                           /\ (L[i].op \in {"ifdef", "ifndef"} => Opener(L, i) = 0)
+                                           /\ (L[i].op = "else" => Opener(L, i) # 0 /\ ~InElse(L, i))
+                                           /\ (L[i].op = "endif" => Opener(L, i) # 0)
+                   /\ Opener(L, Len(L) + 1) = 0
+\* domain (reported finding): the reader records a #define of a branch that is not selected; such inputs are not judged
+NoSkippedDefine(L) == \A i \in 1..Len(L) : L[i].op = "define" => Processed(L, i)
+OplsTags == {"_FF_OPLS", "_FF_OPLS_AA"}
+\* the topology after cpp: defs = the macros in force [name, toks]; opls = an OPLS tag is defined
+Norm(t) == LET eff == EffDefs(t.defs) IN
+             [t EXCEPT !.defs = eff, !.opls = t.opls \/ \E x \in 1..Len(eff) : eff[x].name \in OplsTags]
+
+(* ---- resolution on the topology after cpp (top.defs = macros in force) ---- *)
 \* macro substitution: a parameter token equal to a macro name is replaced by the macro's tokens
 MacroIdx(defs, tok) == {i \in 1..Len(defs) : defs[i].name = tok}
 LastOf(S) == CHOOSE i \in S : \A j \in S : j <= i
@@ -67,8 +104,9 @@ Subst(par, defs) == FlattenSeq([i \in 1..Len(par) |-> IF MacroIdx(defs, par[i]) 
                                                       ELSE <<par[i]>>])
 
 BTypeOf(top, t) == top.btype[CHOOSE i \in 1..Len(top.btype) : top.btype[i].t = t].b
-TypeSeq(top, mol, atoms) == [i \in 1..Len(atoms) |-> IF top.opls THEN BTypeOf(top, mol.atypes[atoms[i]])
-                                                                 ELSE mol.atypes[atoms[i]]]
+TypeSeqO(opls, top, mol, atoms) == [i \in 1..Len(atoms) |-> IF opls THEN BTypeOf(top, mol.atypes[atoms[i]])
+                                                                        ELSE mol.atypes[atoms[i]]]
+TypeSeq(top, mol, atoms) == TypeSeqO(top.opls, top, mol, atoms)
 
 \* "written without parameters": after preprocessing only the function type is left
 Untyped(top, it) == Len(Subst(it.par, top.defs)) = 1
@@ -86,11 +124,13 @@ ResolvedMol(top, mol, d) ==
   [kind \in KindSet |-> FlattenSeq([i \in 1..Len(mol.inter[kind]) |-> ResolveOne(top, mol, kind, mol.inter[kind][i], d)])]
 InstNames(top) == FlattenSeq([j \in 1..Len(top.molecules) |-> [x \in 1..top.molecules[j].n |-> top.molecules[j].name]])
 MolIdx(top, name) == CHOOSE i \in 1..Len(top.mols) : top.mols[i].name = name
-Expected(top, d) ==
+ExpectedN(top, d) ==
   IF Unmatched(top, d) THEN [err |-> TRUE, inst |-> <<>>]
   ELSE LET names == InstNames(top)
            res   == [m \in 1..Len(top.mols) |-> ResolvedMol(top, top.mols[m], d)]
        IN [err |-> FALSE, inst |-> [j \in 1..Len(names) |-> [name |-> names[j], inter |-> res[MolIdx(top, names[j])]]]]
+\* the declared result of a topology as written: cpp first, then the resolution
+Expected(top, d) == ExpectedN(Norm(top), d)
 
 \* results are compared as multisets of interactions per kind and instance
 BagOf(s) == [x \in ToSet(s) |-> Cardinality({i \in 1..Len(s) : s[i] = x})]
@@ -100,31 +140,43 @@ SameResult(r1, r2) == /\ r1.err = r2.err
                                                     /\ \A kind \in KindSet : BagOf(r1.inst[j].inter[kind]) = BagOf(r2.inst[j].inter[kind])
 
 (* the stated domain: no ties (two different keys of the same specificity matching one interaction; a repeated key *)
-(* outside dihedral tables), unique macro and molecule names, a pair type for every pair written without parameters *)
+(* outside dihedral tables), a macro redefined only with the same tokens, a tag (macro without tokens) never used as a *)
+(* parameter, unique molecule names, a pair type for every pair written without parameters; the preprocessor lines are *)
+(* balanced, not nested, and (reported finding) no #define sits in a branch that is not selected                       *)
+ParToks(top) == UNION ({ToSet(it.par) : it \in UNION {ToSet(top.mols[m].inter[kind]) : m \in 1..Len(top.mols), kind \in KindSet}} \cup
+                       {ToSet(e.par) : e \in UNION {ToSet(top.tables[kind]) : kind \in KindSet}})
 NoTie(kind, tbl, ts) == LET B == Best(kind, tbl, ts) IN
                           /\ \A i, j \in B : tbl[i].key = tbl[j].key
                           /\ (kind # "dihedrals" => Cardinality(B) <= 1)
                           /\ (kind = "pairs" => B # {})
-InDomain(top) ==
-  /\ \A i, j \in 1..Len(top.defs) : top.defs[i].name = top.defs[j].name => i = j
+InDomainN(top) ==
+  /\ \A i, j \in 1..Len(top.defs) : top.defs[i].name = top.defs[j].name => top.defs[i].toks = top.defs[j].toks
+  /\ \A i \in 1..Len(top.defs) : top.defs[i].toks = <<>> => top.defs[i].name \notin ParToks(top)
   /\ \A i, j \in 1..Len(top.mols) : top.mols[i].name = top.mols[j].name => i = j
   /\ \A m \in 1..Len(top.mols) : \A kind \in KindSet : \A i \in 1..Len(top.mols[m].inter[kind]) :
         Untyped(top, top.mols[m].inter[kind][i]) =>
            NoTie(kind, top.tables[kind], TypeSeq(top, top.mols[m], top.mols[m].inter[kind][i].atoms))
+InDomain(top) == WellFormedPP(top.defs) /\ NoSkippedDefine(top.defs) /\ InDomainN(Norm(top))
+\* the domain once the reported finding is repaired: a #define in a branch that is not selected is allowed (and has no effect)
+InDomainWide(top) == WellFormedPP(top.defs) /\ InDomainN(Norm(top))
 
 (* ------------------------------------------------------------------ *)
 (* I-layer                                                            *)
 (* ------------------------------------------------------------------ *)
 VARIABLES cid,    \* index of the input in CaseSeq (chosen once)
-          pc,     \* "defines", "scan", "exact", "reversed", "pattern", "apply", "propagate", "done", "error"
+          pc,     \* "parse", "defines", "scan", "exact", "reversed", "pattern", "apply", "propagate", "done", "error"
           blk,    \* molecule type -> kind -> interactions of the block (shared by reference with every instance)
           extra,  \* kind -> additional interactions collected for the current block
           added,  \* instance -> kind -> interactions appended to that instance
           bm, bk, bi,\* current block, current kind (index into KindSeq), current interaction of that kind
           pidx,   \* position in the pattern list
           hit,    \* the table key found by the lookup
-          pj      \* position in the instance list of the current block
-vars == <<cid, pc, blk, extra, added, bm, bk, bi, pidx, hit, pj>>
+          pj,     \* position in the instance list of the current block
+          pl,     \* the preprocessor line being read (TOPDirector.parse_top_pragma)
+          meta,   \* current_meta: the open block [tag, cond], cond = "none": no block open
+          idefs,  \* Topology.defines in insertion order: [name, toks]
+          iact    \* intended design only: the branch being read is the selected one (decided at #ifdef / #ifndef / #else)
+vars == <<cid, pc, blk, extra, added, bm, bk, bi, pidx, hit, pj, pl, meta, idefs, iact>>
 CaseSeq == SetToSeq(Cases)
 top == CaseSeq[cid]
 
@@ -140,53 +192,87 @@ WildKey(ts, P) == [x \in 1..Len(ts) |-> IF x \in P THEN "X" ELSE ts[x]]
 Kind == KindSeq[bk]
 It == blk[bm][Kind][bi]
 Tbl == top.tables[Kind]
-Ts == TypeSeq(top, top.mols[bm], It.atoms)
+\* "_FF_OPLS" in self.defines or "_FF_OPLS_AA" in self.defines
+IOpls == top.opls \/ \E x \in 1..Len(idefs) : idefs[x].name \in OplsTags
+Ts == TypeSeqO(IOpls, top, top.mols[bm], It.atoms)
 HasKey(tbl, key) == \E x \in 1..Len(tbl) : tbl[x].key = key
 \* the terms stored under a key of the types dictionary, in table order (intended design: macros inside the entry substituted)
 TermsOfKey(tbl, key) == LET S == SetToSortSeq({x \in 1..Len(tbl) : tbl[x].key = key}, <)
-                        IN [x \in 1..Len(S) |-> IF DevTableMacrosKept THEN tbl[S[x]].par ELSE Subst(tbl[S[x]].par, top.defs)]
+                        IN [x \in 1..Len(S) |-> IF DevTableMacrosKept THEN tbl[S[x]].par ELSE Subst(tbl[S[x]].par, idefs)]
 \* the skip list of gen_bonded_interactions
 Skipped(kind) == kind = "pairs" /\ DevPairsUntyped
 \* instances of the current block, in [ molecules ] order (mol_idx_by_name)
 InstOf(t, name) == LET names == InstNames(t) IN SetToSortSeq({j \in 1..Len(names) : names[j] = name}, <)
 
+NoMeta == [tag |-> "", cond |-> "none"]
+pvars == <<pl, meta, idefs, iact>>
 Init == /\ cid \in 1..Len(CaseSeq)
-        /\ pc = "defines"
+        /\ pc = IF Len(top.defs) = 0 THEN "defines" ELSE "parse"
+        /\ pl = 1 /\ meta = NoMeta /\ idefs = <<>> /\ iact = TRUE
         /\ blk = [mi \in 1..Len(top.mols) |-> top.mols[mi].inter]
         /\ extra = EmptyK
         /\ added = [j \in 1..Len(InstNames(top)) |-> EmptyK]
         /\ bm = 1 /\ bk = 1 /\ bi = 1 /\ pidx = 1 /\ hit = <<>> /\ pj = 1
+
+(* ---- reading the preprocessor lines (top_parser.TOPDirector.parse_top_pragma, parse_define), one line per step ---- *)
+Ln == top.defs[pl]
+IDefined(name) == \E x \in 1..Len(idefs) : idefs[x].name = name
+AfterLine == /\ pl' = pl + 1
+             /\ pc' = IF pl = Len(top.defs) THEN "defines" ELSE "parse"
+             /\ UNCHANGED <<cid, blk, extra, added, bm, bk, bi, pidx, hit, pj>>
+\* the condition of the open block evaluated now, against the defines recorded so far (what parse_include / parse_error do)
+MetaHoldsNow == meta.cond = "none" \/ (IDefined(meta.tag) = (meta.cond = "ifdef"))
+PragmaIf == /\ pc = "parse" /\ Ln.op \in {"ifdef", "ifndef"}
+            /\ meta' = [tag |-> Ln.name, cond |-> Ln.op]
+            /\ iact' = (IDefined(Ln.name) = (Ln.op = "ifdef"))
+            /\ UNCHANGED idefs /\ AfterLine
+PragmaElse == /\ pc = "parse" /\ Ln.op = "else"
+              /\ meta' = [meta EXCEPT !.cond = IF @ = "ifdef" THEN "ifndef" ELSE "ifdef"]
+              /\ iact' = ~iact
+              /\ UNCHANGED idefs /\ AfterLine
+PragmaEndif == /\ pc = "parse" /\ Ln.op = "endif"
+               /\ meta' = NoMeta /\ iact' = TRUE
+               /\ UNCHANGED idefs /\ AfterLine
+\* parse_define.  Intended reader: a #define is recorded iff the branch being read is the selected one.  The tree records every
+\* #define line (DevDefineInactiveKept, reported finding): the same on the stated domain (NoSkippedDefine), refuted outside it
+Recorded == IF DevDefineLazyCond THEN MetaHoldsNow
+            ELSE IF DevDefineBlockDropped THEN meta.cond = "none"
+            ELSE IF DevDefineInactiveKept THEN TRUE
+            ELSE iact
+PragmaDefine == /\ pc = "parse" /\ Ln.op = "define"
+                /\ idefs' = IF Recorded THEN Append(idefs, [name |-> Ln.name, toks |-> Ln.toks]) ELSE idefs
+                /\ UNCHANGED <<meta, iact>> /\ AfterLine
 
 \* replace_defines: every block interaction, before any lookup
 ReplaceDefines ==
   /\ pc = "defines"
   /\ blk' = [mi \in 1..Len(top.mols) |-> [kind \in KindSet |-> [x \in 1..Len(blk[mi][kind]) |->
                [atoms |-> blk[mi][kind][x].atoms,
-                par |-> IF DevDefineFirstOnly /\ x > 1 THEN blk[mi][kind][x].par ELSE Subst(blk[mi][kind][x].par, top.defs)]]]]
+                par |-> IF DevDefineFirstOnly /\ x > 1 THEN blk[mi][kind][x].par ELSE Subst(blk[mi][kind][x].par, idefs)]]]]
   /\ pc' = IF Len(top.mols) = 0 THEN "done" ELSE "scan"
-  /\ UNCHANGED <<cid, extra, added, bm, bk, bi, pidx, hit, pj>>
+  /\ UNCHANGED <<cid, extra, added, bm, bk, bi, pidx, hit, pj, pvars>>
 
 InKind == bk <= Len(KindSeq) /\ bi <= Len(blk[bm][Kind])
 \* interaction with parameters, or a kind of the skip list: left alone
 SkipItem == /\ pc = "scan" /\ InKind /\ ~(Len(It.par) = 1 /\ ~Skipped(Kind))
             /\ bi' = bi + 1
-            /\ UNCHANGED <<cid, pc, blk, extra, added, bm, bk, pidx, hit, pj>>
+            /\ UNCHANGED <<cid, pc, blk, extra, added, bm, bk, pidx, hit, pj, pvars>>
 NextKind == /\ pc = "scan" /\ bk <= Len(KindSeq) /\ bi > Len(blk[bm][Kind])
             /\ bk' = bk + 1 /\ bi' = 1
-            /\ UNCHANGED <<cid, pc, blk, extra, added, bm, pidx, hit, pj>>
+            /\ UNCHANGED <<cid, pc, blk, extra, added, bm, pidx, hit, pj, pvars>>
 BeginLookup == /\ pc = "scan" /\ InKind /\ Len(It.par) = 1 /\ ~Skipped(Kind)
                /\ pc' = "exact"
-               /\ UNCHANGED <<cid, blk, extra, added, bm, bk, bi, pidx, hit, pj>>
+               /\ UNCHANGED <<cid, blk, extra, added, bm, bk, bi, pidx, hit, pj, pvars>>
 LookupExact == /\ pc = "exact"
                /\ \E ts \in {Ts}, tbl \in {Tbl} : IF HasKey(tbl, ts) THEN hit' = ts /\ pc' = "apply" ELSE hit' = hit /\ pc' = "reversed"
-               /\ UNCHANGED <<cid, blk, extra, added, bm, bk, bi, pidx, pj>>
+               /\ UNCHANGED <<cid, blk, extra, added, bm, bk, bi, pidx, pj, pvars>>
 LookupReversed == /\ pc = "reversed"
                   /\ \E rts \in {Rev(Ts)}, tbl \in {Tbl} :
                      IF ~DevNoReverse /\ HasKey(tbl, rts) THEN hit' = rts /\ pc' = "apply"
                      ELSE /\ hit' = hit
                           /\ pc' = IF Kind = "dihedrals" THEN "pattern" ELSE "error"
                   /\ pidx' = 1
-                  /\ UNCHANGED <<cid, blk, extra, added, bm, bk, bi, pj>>
+                  /\ UNCHANGED <<cid, blk, extra, added, bm, bk, bi, pj, pvars>>
 \* one pattern of the loop: the key built on the listed direction, its reverse, the key built on the reversed
 \* direction, its reverse - the first one present in the types dictionary is returned
 Candidates(ts, P) == LET k1 == WildKey(ts, P) k2 == WildKey(Rev(ts), P)
@@ -197,30 +283,30 @@ PatternTry == /\ pc = "pattern"
                     ELSE /\ hit' = hit
                          /\ IF pidx < Len(PList) THEN pidx' = pidx + 1 /\ pc' = pc
                             ELSE pc' = "error" /\ pidx' = pidx
-              /\ UNCHANGED <<cid, blk, extra, added, bm, bk, bi, pj>>
+              /\ UNCHANGED <<cid, blk, extra, added, bm, bk, bi, pj, pvars>>
 \* first term replaces the block's interaction, further terms are collected
 ApplyTerms == /\ pc = "apply"
               /\ \E tbl \in {Tbl}, kind \in {Kind}, atoms \in {It.atoms} : \E terms \in {TermsOfKey(tbl, hit)} :
                    /\ blk' = [blk EXCEPT ![bm][kind][bi].par = terms[1]]
                    /\ extra' = [extra EXCEPT ![kind] = @ \o [x \in 1..(Len(terms) - 1) |-> [atoms |-> atoms, par |-> terms[x + 1]]]]
               /\ bi' = bi + 1 /\ pc' = "scan"
-              /\ UNCHANGED <<cid, added, bm, bk, pidx, hit, pj>>
+              /\ UNCHANGED <<cid, added, bm, bk, pidx, hit, pj, pvars>>
 EndBlock == /\ pc = "scan" /\ bk > Len(KindSeq)
             /\ pc' = "propagate" /\ pj' = 1
-            /\ UNCHANGED <<cid, blk, extra, added, bm, bk, bi, pidx, hit>>
+            /\ UNCHANGED <<cid, blk, extra, added, bm, bk, bi, pidx, hit, pvars>>
 Propagate == /\ pc = "propagate"
              /\ LET idx == InstOf(top, top.mols[bm].name) IN
                   /\ pj <= Len(idx)
                   /\ added' = IF DevFirstInstOnly /\ pj > 1 THEN added
                               ELSE [added EXCEPT ![idx[pj]] = [kind \in KindSet |-> @[kind] \o extra[kind]]]
                   /\ pj' = pj + 1
-             /\ UNCHANGED <<cid, pc, blk, extra, bm, bk, bi, pidx, hit>>
+             /\ UNCHANGED <<cid, pc, blk, extra, bm, bk, bi, pidx, hit, pvars>>
 NextBlock == /\ pc = "propagate" /\ pj > Len(InstOf(top, top.mols[bm].name))
              /\ IF bm < Len(top.mols) THEN bm' = bm + 1 /\ bk' = 1 /\ bi' = 1 /\ pc' = "scan" ELSE pc' = "done" /\ UNCHANGED <<bm, bk, bi>>
              /\ extra' = EmptyK
-             /\ UNCHANGED <<cid, blk, added, pidx, hit, pj>>
+             /\ UNCHANGED <<cid, blk, added, pidx, hit, pj, pvars>>
 
-Next == ReplaceDefines \/ SkipItem \/ NextKind \/ BeginLookup \/ LookupExact \/ LookupReversed \/ PatternTry
+Next == PragmaIf \/ PragmaElse \/ PragmaEndif \/ PragmaDefine \/ ReplaceDefines \/ SkipItem \/ NextKind \/ BeginLookup \/ LookupExact \/ LookupReversed \/ PatternTry
         \/ ApplyTerms \/ EndBlock \/ Propagate \/ NextBlock
 Spec == Init /\ [][Next]_vars
 
@@ -240,5 +326,7 @@ Conforms == Final => SameResult(IResult, Expected(top, NoDev))
 \* the deviation-parametrised P-layer describes the I-layer with the two proposed-finding flags (used as the exact classifier)
 ConformsDev == Final => SameResult(IResult, Expected(top, CodeDev))
 AllInDomain == \A t \in Cases : InDomain(t)
-DomainOnce == (pc = "defines") => InDomain(top)
+DomainOnce == (pl = 1 /\ pc \in {"parse", "defines"}) => InDomain(top)
+\* the intended design on the domain as it will be after the repair of the reported finding
+DomainWideOnce == (pl = 1 /\ pc \in {"parse", "defines"}) => InDomainWide(top)
 =============================================================================
